@@ -661,7 +661,12 @@ class Tuner:
 
             if status == Status.failed:
                 logger.info(f"Trial trial_id {trial_id} failed.")
-                self.scheduler.on_trial_error(trial)
+                if trial_id not in done_trials:
+                    # If the scheduler has just decided to stop or pause the
+                    # trial (based on a result the job reported before it
+                    # failed), it has already been told that this run ended
+                    # (``on_trial_remove``)
+                    self.scheduler.on_trial_error(trial)
                 done_trials[trial_id] = (trial, status)
 
             # For the case when the trial is stopped independently of the scheduler, we choose to use
